@@ -143,7 +143,10 @@ pub fn child(k: usize, outdir: &str, seed: u64, thorough: bool) -> serde_json::V
         if parse(&sql).is_err() { st.bump("not_valid_sql"); continue; }
         progress(outdir, &format!("variant {} :: {}", variant, sql));
         st.evaluations += 1; st.distinct.insert(hash_str(&format!("{}{}", variant, sql)));
-        let fail = |st: &mut Stats, stage: &str| { st.violation(json!({"kind":"panic","stage":stage,"construct":site(&last_panic()),"panic":last_panic(),"query":sql,"schema_variant":variant})); };
+        // the arithmetic operators the text contains: an abort inside the range propagation of `/` or `%` is a
+        // listed finding only for queries that divide or take a remainder
+        let ops = match (sql.contains('/'), sql.contains('%')) { (true, true) => "division+modulo", (true, false) => "division", (false, true) => "modulo", _ => "no-division" };
+        let fail = |st: &mut Stats, stage: &str| { st.violation(json!({"kind":"panic","class":ops,"stage":stage,"construct":site(&last_panic()),"panic":last_panic(),"query":sql,"schema_variant":variant})); };
         // relation, schema, size
         let rel = match catch_unwind(AssertUnwindSafe(|| to_relation(&w, &sql))) { Ok(Ok(rel)) => { st.bump("relation_built"); rel } Ok(Err(_)) => { st.bump("relation_error_value"); continue; } Err(_) => { fail(&mut st, "relation"); continue; } };
         if catch_unwind(AssertUnwindSafe(|| { let _ = rel.schema().to_string(); let _ = rel.size().to_string(); let _ = rel.to_string(); })).is_err() { fail(&mut st, "schema"); }
